@@ -327,5 +327,8 @@ PROPS["C16"]["manifest"]["text"] += (" The field-by-field node-style path is a t
                                      " marshalled and unmarshalled come back identical for every amount up to the coin cap (node_output_roundtrip,"
                                      " node_utxo_roundtrip, node_tx_fieldwise_roundtrip).")
 
+PROPS["C15"]["manifest"]["text"] += (" The converse is proved as well: every address the library derives (either network, any 20-byte hash) is accepted by"
+                                     " ValidateAddress (derived_address_validates).")
+
 NOT_APPLICABLE = {}
 HOOK_COMMITS = []
